@@ -279,6 +279,10 @@ fn keys_of(t: &Tree) -> Vec<String> {
 }
 
 /// every container kind around every sensitive leaf, depth 1 and 2 (deterministic part)
+pub fn systematic_values() -> Vec<(DynTy, DynVal)> {
+    systematic()
+}
+
 fn systematic() -> Vec<(DynTy, DynVal)> {
     let leaves: Vec<(DynTy, DynVal)> = vec![
         (DynTy::F64, DynVal::F64(Dbl::Nan)),
